@@ -241,7 +241,7 @@ class Checker:
                 self.cache[k] = o
             todo = again
 
-    def blame_expr(self, case, prefix_decls, e, t, which="model_po"):
+    def blame_expr(self, case, prefix_decls, e, t, which="model_po", as_global=False):
         """Key of the first sub-expression (post-order) of e on which model and spec differ
         when it is the initialiser of a fresh override of its own type appended to
         prefix_decls.  For the ProcessOverrides path the failing operator is then tried in
@@ -256,21 +256,34 @@ class Checker:
             rt = G.raw_ty(s, decls)
             if (rt == "aint" and t in (G.I32, G.U32, G.F32)) or (rt == "afloat" and t == G.F32):
                 ts = t                                     # a purely abstract sub-expression is converted to the target type
-            jobs.append({"decls": [enc_decl(d) for d in prefix_decls] + [{"name": "q_", "id": None, "ty": ts, "init": s}],
-                         "consts": p["vmap"]})
+            if as_global:
+                # a derived global initialiser reads the CONVERTED literals of the overrides
+                jobs.append({"decls": [enc_decl(d) for d in prefix_decls], "consts": p["vmap"],
+                             "globals": [{"ty": ts, "init": s}]})
+            else:
+                jobs.append({"decls": [enc_decl(d) for d in prefix_decls] + [{"name": "q_", "id": None, "ty": ts, "init": s}],
+                             "consts": p["vmap"]})
         outs = self.query(jobs)
         n = len(prefix_decls)
         vals = {}
         for s, o in zip(subs, outs):
-            se = o["spec_each"]
-            if len(se) <= n:
-                continue                                   # an earlier override already fails in the spec
-            sv = se[n]
-            dropped = o["lowered"][n]["init"] is None
-            if which == "model_po":
-                mv = o["model_po"][n] if o["model_po"] is not None else None
+            if as_global:
+                g0 = o["globals"][0]
+                if g0 is None:
+                    continue
+                sv = g0["spec"]
+                dropped = g0["lowered"] is None
+                mv = g0["model"]
             else:
-                mv = msl_value(o["model_msl"][n], sv[1][0]) if sv[0] == "ok" else None
+                se = o["spec_each"]
+                if len(se) <= n:
+                    continue                               # an earlier override already fails in the spec
+                sv = se[n]
+                dropped = o["lowered"][n]["init"] is None
+                if which == "model_po":
+                    mv = o["model_po"][n] if o["model_po"] is not None else None
+                else:
+                    mv = msl_value(o["model_msl"][n], sv[1][0]) if sv[0] == "ok" else None
             cls = node_class(s, decls)
             if sv[0] == "err":
                 if sv[1] in ("type", "unsupported"):
@@ -555,7 +568,7 @@ class Checker:
                 got = G.lit_of_tree(pog[gl["name"]]["init"])
                 if sp[0] == "err":
                     if sp[1] == "diag":
-                        cls = self.blame_expr(case, decls, gl["init"], gl["ty"])
+                        cls = self.blame_expr(case, decls, gl["init"], gl["ty"], as_global=True)
                         if cls:
                             self.finding(case, eval_key(cls, "global"), "WGSL requires a pipeline-creation error for the initialiser of %s, "
                                          "ProcessOverrides made it %s" % (gl["name"], lit_str(got)))
@@ -564,7 +577,7 @@ class Checker:
                     if mg["lowered"] is None:
                         key = "global-init-dropped:%s" % (init_drop_reason(gl["init"]) or "other")
                     else:
-                        cls = self.blame_expr(case, decls, gl["init"], gl["ty"])
+                        cls = self.blame_expr(case, decls, gl["init"], gl["ty"], as_global=True)
                         if cls is None:
                             continue
                         key = eval_key(cls, "global")
